@@ -1,3 +1,41 @@
-import ViaProofs.Statements
+import ViaProofs.ConnLemmas
+import ViaProofs.C09
+/-
+  C19 — over TLS: same guarantees, orderly close_notify, server survives every close.
+
+  The adaptor flavour is a parameter of the model (`Opts.flavour`), not a second model: every theorem about the
+  connection layer (C03, C09, C10, C11, C14) is stated for all worlds and therefore holds for the ssl flavour
+  (asynchronous handshake; `shutdown` = cancel pending operations + asynchronous close_notify).  Specific to it:
+  * `C19_invariant`            the lifecycle / retention invariant after every history with `flavour=ssl`;
+  * `C19_close_notify_after_write`  the library issues the TLS shutdown (close_notify) for a finished response only
+                               from the completion of that response's write (C09) — never while it is in flight;
+  * `C19_shutdown_keeps_socket_open` in the ssl flavour `shutdown` does not close the socket: close follows only
+                               after the shutdown completion has been handled (close_notify precedes close).
+  OpenSSL / asio behaviour is modelled by the adaptor contract, not verified; the thorough tier validates it on
+  real TLS loopback connections (clean close_notify vs truncation).
+-/
 namespace Via
+open Sim
+
+theorem C19_invariant (rest : List String) (history : List (List String)) :
+    Inv (history.foldl simOp (mkServer ("flavour=ssl" :: rest))) ∧
+    Settled (history.foldl simOp (mkServer ("flavour=ssl" :: rest))) :=
+  history_inv _ history
+
+theorem C19_close_notify_after_write (fuel : Nat) (w : World) (i : Nat) (h : (w.get i).transmitting = true) :
+    disconnectConn (fuel + 1) w i = w.upd i fun c => { c with disconnectPending := true } :=
+  disconnect_defers fuel w i h
+
+/-- ssl flavour: `shutdown` emits the close_notify request, cancels the pending operations and leaves the socket
+    open; nothing else changes -/
+theorem C19_shutdown_keeps_socket_open (fuel : Nat) (w : World) (i : Nat) (hf : w.opts.flavour = .ssl)
+    (hi : i < w.conns.length) :
+    ((shutdownConn (fuel + 1) w i).get i).sockOpen = (w.get i).sockOpen ∧
+    ((shutdownConn (fuel + 1) w i).get i).shutStored = true ∧
+    ((shutdownConn (fuel + 1) w i).get i).shutdownSent = true := by
+  unfold shutdownConn
+  have hopts : ((w.upd i fun c => { c with shutdownSent := true }).emit s!"io shutdown {cn i}").opts = w.opts := rfl
+  simp only [hopts, hf]
+  simp [World.get, World.upd, World.emit, dropPendingIo, List.getD_eq_getElem?_getD, List.getElem?_modify, hi]
+
 end Via
